@@ -108,7 +108,7 @@ fn bits_from(seed: u64, n: usize) -> Vec<bool> {
 }
 
 /// Disk invariant: returns the set of piece indices whose file is present and verified.
-fn check_disk(t: &Torrent, planted: &BTreeMap<String, Vec<u8>>, cache: &mut BTreeMap<String, (u64, std::time::SystemTime, bool)>, fails: &mut Vec<(String, String)>, what: &str) -> BTreeSet<usize> {
+fn check_disk(t: &Torrent, obstacles: &[String], planted: &BTreeMap<String, Vec<u8>>, cache: &mut BTreeMap<String, (u64, std::time::SystemTime, bool)>, fails: &mut Vec<(String, String)>, what: &str) -> BTreeSet<usize> {
     let mut owned = BTreeSet::new();
     let rd = match std::fs::read_dir(".") {
         Ok(r) => r,
@@ -116,6 +116,10 @@ fn check_disk(t: &Torrent, planted: &BTreeMap<String, Vec<u8>>, cache: &mut BTre
     };
     for e in rd.flatten() {
         let name = e.file_name().to_string_lossy().to_string();
+        if name == "obstacle.d" || (obstacles.contains(&name) && std::fs::symlink_metadata(e.path()).map(|m| m.file_type().is_symlink()).unwrap_or(false)) {
+            // planted by the harness, untouched
+            continue;
+        }
         let meta = match e.metadata() {
             Ok(m) => m,
             Err(_) => continue,
@@ -172,6 +176,15 @@ pub fn check(c: &Case) -> Outcome {
         planted = t.write_damaged_leftovers(c.seed).into_iter().collect();
         o.class("damaged-leftover-piece-files");
     }
+    let mut obstacles: Vec<String> = vec![];
+    if c.seed % 8 == 6 {
+        // the store cannot take some pieces: their write fails every time (the download cannot finish, but nothing may
+        // be claimed that is not there)
+        obstacles = t.write_obstacles(c.seed);
+        o.class_if(!obstacles.is_empty(), "piece-file-cannot-be-written");
+    }
+    let blocked = !obstacles.is_empty();
+    let obstacles2 = obstacles.clone();
     let c2 = c.clone();
     let t2 = t.clone();
     let res = swarm::run(c.seed, &t, move |w: &mut World| {
@@ -361,7 +374,7 @@ pub fn check(c: &Case) -> Outcome {
                     break;
                 }
                 // (1) disk
-                let owned = check_disk(&t, &planted, &mut cache, &mut fails, &what);
+                let owned = check_disk(&t, &obstacles2, &planted, &mut cache, &mut fails, &what);
                 // (2) ownership
                 let snap = w.snapshot();
                 for i in 0..n {
@@ -419,7 +432,7 @@ pub fn check(c: &Case) -> Outcome {
             let mut completed = true;
             if w.fatal().is_none() && fails.is_empty() && inv.fails.is_empty() {
                 completed = finisher(w, &mut net, &mut inv, true).await;
-                let owned = check_disk(&t, &planted, &mut cache, &mut fails, "after the finisher");
+                let owned = check_disk(&t, &obstacles2, &planted, &mut cache, &mut fails, "after the finisher");
                 if completed && owned.len() != n {
                     fails.push(("have-without-verified-file".into(), format!("all pieces Have but only {:?} verified on disk", owned)));
                 }
@@ -442,6 +455,8 @@ pub fn check(c: &Case) -> Outcome {
             }
             if let Some((s, d)) = fatal {
                 o.fail(s, d);
+            } else if !completed && o.ok() && blocked {
+                o.class("download-cannot-finish-store-refuses-pieces");
             } else if !completed && o.ok() {
                 o.fail("download-stuck-after-adversarial-peers", format!("an honest peer holding everything could not complete the download; statuses {:?}", statuses));
             } else if completed && o.ok() {
@@ -467,14 +482,14 @@ pub fn check(c: &Case) -> Outcome {
 pub fn def() -> PropDef {
     PropDef {
         id: "C01",
-        rule: "(in a quarter of the cases damaged piece files of an earlier run - right name and length, zeroed tail - lie in the download directory: a restart) a torrent (piece length from {1,7,100,16383,16384,16385,20000,32768 (+40000,49153 thorough)}, 1-14 pieces, generated last-piece length) and up to 3 scripted peers with generated advertised subsets, driven by a global schedule of up to 60 steps; a step lets one peer answer one outstanding request correctly, with one bit flipped, with other bytes of the piece, at another offset, for another piece index, truncated, extended, or send a duplicate, a block for a request of an earlier assignment, an unrequested block, withhold, choke, unchoke, disconnect, join, announce a piece, repeat its bitfield (also an empty one), or itself request a block from the client. After every barrier: every file in the store is <HEX-SHA1>.piece of a listed hash with that piece's length and content hashing to its name, nothing else appears, verified pieces never disappear; every Have status has its verified file; every Have / bitfield bit / Piece frame the client wrote refers to a piece verified on disk at that barrier (and served bytes are the content); reservations are backed by live fetchers. Finally an honest peer must be able to complete the download and the real Extractor must reproduce the content. Non-trivial = at least one bad block was sent and either an assembled piece failed its hash or some piece was completed; distinct by hash of the case.",
+        rule: "(an eighth of the cases: a symbolic link to a directory sits where some piece files belong, so that storing those pieces fails - the download then cannot finish, which is accepted, but nothing may be claimed that is not stored) (in a quarter of the cases damaged piece files of an earlier run - right name and length, zeroed tail - lie in the download directory: a restart) a torrent (piece length from {1,7,100,16383,16384,16385,20000,32768 (+40000,49153 thorough)}, 1-14 pieces, generated last-piece length) and up to 3 scripted peers with generated advertised subsets, driven by a global schedule of up to 60 steps; a step lets one peer answer one outstanding request correctly, with one bit flipped, with other bytes of the piece, at another offset, for another piece index, truncated, extended, or send a duplicate, a block for a request of an earlier assignment, an unrequested block, withhold, choke, unchoke, disconnect, join, announce a piece, repeat its bitfield (also an empty one), or itself request a block from the client. After every barrier: every file in the store is <HEX-SHA1>.piece of a listed hash with that piece's length and content hashing to its name, nothing else appears, verified pieces never disappear; every Have status has its verified file; every Have / bitfield bit / Piece frame the client wrote refers to a piece verified on disk at that barrier (and served bytes are the content); reservations are backed by live fetchers. Finally an honest peer must be able to complete the download and the real Extractor must reproduce the content. Non-trivial = at least one bad block was sent and either an assembled piece failed its hash or some piece was completed; distinct by hash of the case.",
         assumptions: &["observation granularity is the quiescence barrier: 'advertised only after stored' is checked as 'stored at the barrier in which the advertisement was read'"],
         subs: vec![Sub {
             name: "adversary",
             cases: |t| t.pick(15_000, 200_000),
             run: |ctx| run_proptest(ctx, "adversary", strategy(ctx.tier), check),
             replay: |v| replay_case::<Case>(v, check),
-            min_class: &[("corrupt-block", 0.2518), ("assembled-piece-failed-hash", 0.2), ("right-data-wrong-offset", 0.05), ("wrong-piece-index", 0.05), ("client-served-a-block", 0.05), ("disconnect", 0.2), ("stale-block", 0.03), ("duplicate-block", 0.1), ("repeated-bitfield", 0.1), ("damaged-leftover-piece-files", 0.1)],
+            min_class: &[("corrupt-block", 0.2518), ("assembled-piece-failed-hash", 0.2), ("right-data-wrong-offset", 0.05), ("wrong-piece-index", 0.05), ("client-served-a-block", 0.05), ("disconnect", 0.2), ("stale-block", 0.03), ("duplicate-block", 0.1), ("repeated-bitfield", 0.1), ("damaged-leftover-piece-files", 0.1), ("piece-file-cannot-be-written", 0.04)],
         }],
     }
 }
